@@ -41,10 +41,26 @@ type Summary struct {
 	Ret    []Roots
 	GW     []GlobalWrite
 	gwSeen map[string]bool
+	// Esc: bit i set = the pointer passed as parameter i (or a pointer derived from it) may be stored into a heap object
+	// (anything but a non-escaping local), directly or by a callee
+	Esc Roots
+	// GE: places where a pointer into package-level memory is stored into a heap object (the frame analysis classifies
+	// what is loaded from parameter-reachable memory as parameter-rooted, which is only right if this never happens with
+	// memory that is ever written)
+	GE     []GlobalEscape
+	geSeen map[string]bool
+}
+
+// GlobalEscape: a package-level-rooted pointer stored into the heap.
+type GlobalEscape struct {
+	Func    string
+	Pos     token.Position
+	Globals []string // the package-level variables the value was derived from (best effort), "?" if unknown
+	Via     string
 }
 
 func newSummary() *Summary {
-	return &Summary{Mod: map[int]map[string]bool{}, gwSeen: map[string]bool{}}
+	return &Summary{Mod: map[int]map[string]bool{}, gwSeen: map[string]bool{}, geSeen: map[string]bool{}}
 }
 
 func (s *Summary) addMod(root int, keys []string) bool {
@@ -211,6 +227,23 @@ func (pa *provAnalysis) analyze(fn *ssa.Function) bool {
 			}
 		}
 	}
+	// escape: a pointer-like value with roots val is stored into a heap object
+	escape := func(val Roots, src ssa.Value, pos token.Pos, via string) {
+		for i := 0; i < maxParams; i++ {
+			if val&bit(i) != 0 && sum.Esc&bit(i) == 0 {
+				sum.Esc |= bit(i)
+				changed = true
+			}
+		}
+		if val&bit(rootGlob) != 0 && !isInit {
+			p := E.P.SSA.Fset.Position(pos)
+			id := fmt.Sprintf("%s:%d:%s", p.Filename, p.Line, via)
+			if !sum.geSeen[id] {
+				sum.geSeen[id] = true
+				sum.GE = append(sum.GE, GlobalEscape{Func: E.P.Names[fn], Pos: p, Globals: globalsBehind(src, 0), Via: via})
+			}
+		}
+	}
 	localChanged := false
 	set := func(v ssa.Value, r Roots) {
 		if prov[v]|r != prov[v] {
@@ -257,6 +290,9 @@ func (pa *provAnalysis) analyze(fn *ssa.Function) bool {
 						if !escapes(a) {
 							continue
 						}
+					}
+					if pointerLike(x.Val.Type()) {
+						escape(get(x.Val), x.Val, x.Pos(), "store "+exprName(x.Addr))
 					}
 					write(get(x.Addr), storeKeys(x.Addr), get(x.Val), x.Pos(), "store "+exprName(x.Addr))
 				case *ssa.UnOp:
@@ -328,7 +364,7 @@ func (pa *provAnalysis) analyze(fn *ssa.Function) bool {
 						}
 					}
 				case ssa.CallInstruction:
-					pa.call(fn, x, get, set, write, &freshContent)
+					pa.call(fn, x, get, set, write, &freshContent, escape)
 				}
 			}
 			prev := cellOut[b]
@@ -372,7 +408,7 @@ func loadFrom2(r Roots, freshContent Roots) Roots {
 }
 
 func (pa *provAnalysis) call(fn *ssa.Function, ci ssa.CallInstruction, get func(ssa.Value) Roots, set func(ssa.Value, Roots),
-	write func(Roots, []string, Roots, token.Pos, string), freshContent *Roots) {
+	write func(Roots, []string, Roots, token.Pos, string), freshContent *Roots, escape func(Roots, ssa.Value, token.Pos, string)) {
 	E := pa.E
 	c := ci.Common()
 	var resV ssa.Value
@@ -396,6 +432,9 @@ func (pa *provAnalysis) call(fn *ssa.Function, ci ssa.CallInstruction, get func(
 					val = loadFrom2(get(c.Args[1]), *freshContent) | get(c.Args[1])
 				}
 				write(get(c.Args[0]), keys, val, c.Pos(), "append")
+				if len(c.Args) > 1 && hasPointers(sl.Elem()) {
+					escape(val, c.Args[1], c.Pos(), "append")
+				}
 			}
 			if resV != nil {
 				set(resV, get(c.Args[0])|bit(rootFresh))
@@ -404,6 +443,9 @@ func (pa *provAnalysis) call(fn *ssa.Function, ci ssa.CallInstruction, get func(
 			if sl, ok := under(c.Args[0].Type()).(*types.Slice); ok {
 				keys := leafKeysOf(sl.Elem(), "M."+typeKey(sl.Elem()), map[string]bool{})
 				write(get(c.Args[0]), keys, loadFrom2(get(c.Args[1]), *freshContent), c.Pos(), "copy")
+				if hasPointers(sl.Elem()) {
+					escape(loadFrom2(get(c.Args[1]), *freshContent), c.Args[1], c.Pos(), "copy")
+				}
 			}
 		case "delete", "clear":
 			write(get(c.Args[0]), []string{"MAP." + typeKey(c.Args[0].Type())}, 0, c.Pos(), bi.Name())
@@ -472,6 +514,16 @@ func (pa *provAnalysis) call(fn *ssa.Function, ci ssa.CallInstruction, get func(
 				}
 			}
 			res |= rr & (bit(rootFresh) | bit(rootGlob) | bit(rootUnknown))
+		}
+		// pointers the callee may store into the heap
+		for j := 0; j < maxParams && j < len(t.Params)+len(closureBindings); j++ {
+			if ts.Esc&bit(j) != 0 {
+				var src ssa.Value
+				if j < len(actuals) {
+					src = actuals[j]
+				}
+				escape(mapRoot(j), src, c.Pos(), "call "+t.Name())
+			}
 		}
 	}
 	if gk := E.ghostKeysOfCall(c); len(gk) > 0 {
@@ -662,4 +714,64 @@ func addrEscapes(v ssa.Value, depth int) bool {
 		}
 	}
 	return false
+}
+
+// hasPointers: values of the type contain pointers (so storing one can make a heap object point somewhere).
+func hasPointers(t types.Type) bool {
+	switch u := under(t).(type) {
+	case *types.Basic:
+		return u.Kind() == types.String || u.Kind() == types.UnsafePointer
+	case *types.Struct:
+		for i := 0; i < u.NumFields(); i++ {
+			if hasPointers(u.Field(i).Type()) {
+				return true
+			}
+		}
+		return false
+	case *types.Array:
+		return hasPointers(u.Elem())
+	}
+	return true
+}
+
+// globalsBehind names the package-level variables a value is derived from (syntactic back-trace, best effort).
+func globalsBehind(v ssa.Value, depth int) []string {
+	if v == nil || depth > 6 {
+		return []string{"?"}
+	}
+	switch x := v.(type) {
+	case *ssa.Global:
+		return []string{shortPkg(x.Pkg.Pkg.Path()) + "." + x.Name()}
+	case *ssa.UnOp:
+		return globalsBehind(x.X, depth+1)
+	case *ssa.Slice:
+		return globalsBehind(x.X, depth+1)
+	case *ssa.FieldAddr:
+		return globalsBehind(x.X, depth+1)
+	case *ssa.IndexAddr:
+		return globalsBehind(x.X, depth+1)
+	case *ssa.Field:
+		return globalsBehind(x.X, depth+1)
+	case *ssa.Index:
+		return globalsBehind(x.X, depth+1)
+	case *ssa.ChangeType:
+		return globalsBehind(x.X, depth+1)
+	case *ssa.MakeInterface:
+		return globalsBehind(x.X, depth+1)
+	case *ssa.Convert:
+		return globalsBehind(x.X, depth+1)
+	case *ssa.Phi:
+		var out []string
+		seen := map[string]bool{}
+		for _, e := range x.Edges {
+			for _, g := range globalsBehind(e, depth+1) {
+				if !seen[g] {
+					seen[g] = true
+					out = append(out, g)
+				}
+			}
+		}
+		return out
+	}
+	return []string{"?"}
 }
